@@ -3,6 +3,7 @@ import numpy as np
 from lib import common as C, het as H
 
 GEN = ['HetFacts']
+IMPORTS = ['C08/kernel_weights', 'C08/lottery_1d_laws', 'C08/lottery_2d_laws', 'C08/markov_laws', 'C08/combined_shock_product_rule', 'C17/robust_bracket', 'C17/coord_reproduces_query', 'C17/monotone_equals_robust']
 TRUSTED = ['C08 (Kronecker product vs dimension-wise Markov steps is checked there against dense references), C09']
 ASSUMPTIONS = ['the Coq theorem only states that two loops presenting the same step and expectation operators record the same values; that HetBlock and StageBlock (and '
                'multi-dimensional vs Kronecker exogenous states) do so is checked by paired runs on the implementation',
